@@ -315,6 +315,7 @@ func TestC19(t *testing.T) {
 				case "UnixFSDirectory-custom":
 					pathRule = true
 					n := 0
+					var reused testutil.DirEntry
 					de, err = testutil.UnixFSDirectory(*ls, gg.Size, testutil.WithRandReader(rnd), testutil.WithChildGenerator(func(name string) (*testutil.DirEntry, error) {
 						n++
 						if n > 5+gg.Var {
@@ -336,6 +337,11 @@ func TestC19(t *testing.T) {
 							return nil, err
 						}
 						f.Path = name
+						if gg.Var%4 >= 2 {
+							// the generator keeps one entry variable and hands out its address every time
+							reused = f
+							return &reused, nil
+						}
 						return &f, nil
 					}))
 				case "UnixFSDirectory-custom-ext-sticky":
